@@ -228,7 +228,7 @@ def run(ck):
                 perstar.append((k, have, m))
                 total += m
             wrong = [(k, h, m) for k, h, m in perstar if h != m]
-            # stable class of failing input: every miscounted star has a pure two-fold stabiliser (finding F2)
+            # stable class of failing input: every miscounted star has a pure two-fold stabiliser (finding F1 of design_notes/C25.md)
             sfx = "-twofold-stabiliser" if wrong and all(k in twofold for k, h, m in wrong) else ""
             if V.Nvstars != total or wrong:
                 violation("count" + sfx, "number of vector stars %d differs from the total invariant dimension %d" % (V.Nvstars, total),
